@@ -357,16 +357,16 @@ spec(lean="tree_init", module="AlgoCtorInit", file=_TREE, cls="Tree", func="__in
 # `Tree.from_data_frame`: the frame is the dict of its columns as array OBJECTS (`df[k].to_numpy()` hands out the column's own array: pandas
 # returns a view of the column for a single-dtype column — TRUSTED, observed with np.shares_memory by the suite), `df.shape[0]` its row count.
 #   * `Tree(n, **D, source=…, comments=…, names=…)` = the translated `Tree.__init__` on the heap with `kwargs` = D (hook: a constructor call of a
-#     class whose `__init__` is a translated heap-passing function listed in HEAP_CTORS; the keywords that are not columns are not modelled)
+#     class whose `__init__` is a translated heap-passing function listed in _CTOR_HEAP_CTORS; the keywords that are not columns are not modelled)
 # TRUSTED GLUE: `names = get_names(names)` skipped, `names.cols()` = the seven default names in the order of `SWCNames.cols`, `df.columns` = the keys
 #   of the dict, `df.shape[0]` = the parameter `nrows`.
-HEAP_CTORS = {"Tree": ("tree_init", {"source", "comments", "names"})}
+_CTOR_HEAP_CTORS = {"Tree": ("tree_init", {"source", "comments", "names"})}
 
 
 def _heap_ctor(tr, e, want):
-    if tr.spec.module not in _INIT_MODS or not (isinstance(e, ast.Call) and ast.unparse(e.func) in HEAP_CTORS):
+    if tr.spec.module not in _INIT_MODS or not (isinstance(e, ast.Call) and ast.unparse(e.func) in _CTOR_HEAP_CTORS):
         return None
-    lean, dropped = HEAP_CTORS[ast.unparse(e.func)]
+    lean, dropped = _CTOR_HEAP_CTORS[ast.unparse(e.func)]
     cal = by_lean_global.get(lean) or [sp for sp in SPECS if sp.lean == lean][0]
     stars = [k.value for k in e.keywords if k.arg is None]
     if len(e.args) != 1 or len(stars) != 1 or {k.arg for k in e.keywords if k.arg is not None} - dropped:
